@@ -1,6 +1,7 @@
 package main
 
 import (
+	"regexp"
 	"fmt"
 	"strings"
 
@@ -355,4 +356,120 @@ func genContentionSet(r *Rng, nPairs, copies int) *bookSet {
 		}
 	}
 	return bs
+}
+
+var reBothDisambig = regexp.MustCompile(`^[NBRQ][a-h][1-8]x?[a-h][1-8]`)
+
+// crowdedPreludes are legal openings which promote early, so that three pieces of one kind
+// stand on the board (under-promotions included): SAN then needs file, rank or both.
+var crowdedPreludes = []string{
+	"a2a4 b7b5 a4b5 d7d5 b5b6 h7h5 b6a7 h8h6 a7b8n",
+	"h2h4 g7g5 h4g5 e7e5 g5g6 a7a5 g6h7 a8a6 h7g8r",
+	"a2a3 h7h5 b2b3 h5h4 c2c3 h4h3 d2d3 h3g2 e2e3 g2h1n",
+	"h2h3 a7a5 g2g3 a5a4 f2f3 a4a3 e2e3 a3b2 d2d3 b2a1r",
+	"a2a4 b7b5 a4b5 a7a6 b5a6 c8b7 a6b7 d7d5 b7a8q h7h5 h2h4",
+	"b2b4 a7a5 b4a5 b7b6 a5b6 c8a6 b6b7 d7d6 b7a8n",
+}
+
+// genCrowdedSet: games which continue such a prelude, preferring moves whose SAN needs both
+// the file and the rank of the origin square.  They contain promotions, so only the SAN and
+// PGN readers can be fed with them.
+func genCrowdedSet(r *Rng, nGames int) (*bookSet, int, int) {
+	bs := &bookSet{}
+	both, bothCaptures := 0, 0
+	start := rc.MustFEN(rc.StartFEN)
+	for tries := 0; len(bs.Games) < nGames && tries < nGames*20; tries++ {
+		b := start
+		var ms []rc.Move
+		ok := true
+		for _, u := range strings.Fields(crowdedPreludes[r.Intn(len(crowdedPreludes))]) {
+			found := false
+			for _, l := range b.Legal() {
+				if l.UCI() == u {
+					ms = append(ms, l)
+					b = b.Apply(l)
+					found = true
+					break
+				}
+			}
+			if !found {
+				ok = false
+				break
+			}
+		}
+		if !ok {
+			continue
+		}
+		// random continuations (moves of the kind of piece that was promoted preferred) until
+		// one reaches a move whose SAN needs file and rank; keep that line plus a short tail
+		promoted := byte('N')
+		if last := ms[len(ms)-1]; last.Kind == rc.Promotion || true {
+			for _, m := range ms {
+				if m.Kind == rc.Promotion {
+					promoted = m.UCI()[4] - 32
+				}
+			}
+		}
+		base, baseB := ms, b
+		found := false
+		for attempt := 0; attempt < 120 && !found; attempt++ {
+			ms, b = append([]rc.Move(nil), base...), baseB
+			n := 4 + r.Intn(24)
+			for i := 0; i < n; i++ {
+				legal := b.Legal()
+				if len(legal) == 0 {
+					break
+				}
+				// group by (piece, target): three or more pieces of one kind reaching one square
+				cnt := map[[2]int]int{}
+				for _, l := range legal {
+					cnt[[2]int{int(b.Sq[l.From]), l.To}]++
+				}
+				var special []rc.Move
+				for _, l := range legal {
+					if cnt[[2]int{int(b.Sq[l.From]), l.To}] >= 3 && reBothDisambig.MatchString(b.SAN(l, rc.SanOpts{})) {
+						special = append(special, l)
+					}
+				}
+				// captures first: "Nb4xd5" is read by the SAN parser proper, while "Nb4d5" happens
+				// to look like a coordinate move to the book reader
+				var caps []rc.Move
+				for _, l := range special {
+					if b.Sq[l.To] != 0 {
+						caps = append(caps, l)
+					}
+				}
+				if len(caps) > 0 {
+					special = caps
+					bothCaptures++
+				} else if len(special) > 0 && attempt < 100 {
+					special = nil // keep looking for a capture of this kind
+				}
+				var pick rc.Move
+				if len(special) > 0 {
+					pick = special[r.Intn(len(special))]
+					both++
+					found = true
+				} else {
+					pick = legal[r.Intn(len(legal))]
+					for try := 0; try < 6; try++ {
+						c := legal[r.Intn(len(legal))]
+						if p := b.Sq[c.From]; p == promoted || p == promoted+32 {
+							pick = c
+							break
+						}
+					}
+				}
+				ms = append(ms, pick)
+				b = b.Apply(pick)
+				if found && r.Chance(0.4) {
+					break
+				}
+			}
+		}
+		if g, ok := replayGame(start, ms); ok {
+			bs.Games = append(bs.Games, g)
+		}
+	}
+	return bs, both, bothCaptures
 }
